@@ -268,6 +268,12 @@ type observer struct {
 	policy  []hdr
 	panics  []string // panics of ResponseWriter methods called by the handler
 	cleanup func()
+	// hold, when set, keeps a MsgInvalidFunc call from returning for a moment (in-memory datagram
+	// transport: until the serve loop has read on, see holdReport); changed lists the reports whose
+	// octets were different when the callback returned from what they were when it was entered
+	hold    func(short bool) bool
+	held    int
+	changed []string
 }
 
 // remotePort asks the ResponseWriter for the client's address the way handlers do (logging, access
@@ -335,7 +341,23 @@ func (o *observer) configure(srv *dns.Server, p policySpec, handler string) {
 		c := append([]byte{}, m...)
 		o.mu.Lock()
 		o.invalid = append(o.invalid, c)
+		hold := o.hold
 		o.mu.Unlock()
+		// "reported to the invalid-message callback": the octets are the report for as long as the
+		// callback looks at them. The receive buffers of a datagram server are recycled; a buffer that
+		// goes back to the pool before (or while) the callback runs is filled with a later datagram
+		// under the callback's eyes. Nothing the library may do changes m before this function returns.
+		progressed := hold != nil && hold(len(m) < 12)
+		if !bytes.Equal(m, c) {
+			o.mu.Lock()
+			o.changed = append(o.changed, fmt.Sprintf("%s became %s", hex.EncodeToString(c), hex.EncodeToString(m)))
+			o.mu.Unlock()
+		}
+		if progressed {
+			o.mu.Lock()
+			o.held++
+			o.mu.Unlock()
+		}
 	}
 	if p.custom() {
 		f := func(dh dns.Header) dns.MsgAcceptAction {
@@ -406,6 +428,7 @@ const basePort = 10000
 func runUDP(c admitCase) (outcome, error) {
 	o := &observer{}
 	pc := newMemPC()
+	o.hold = pc.holdReport
 	srv := &dns.Server{PacketConn: pc, UDPSize: c.UDPSize}
 	c.Timeouts.apply(srv)
 	o.configure(srv, c.Policy, c.Handler)
@@ -636,8 +659,8 @@ func runRealUDP(c admitCase, wantReplies int) (outcome, error) {
 		}
 		sent++
 	}
-	wd := time.AfterFunc(watchdog, func() { mu.Lock(); cond.Broadcast(); mu.Unlock() })
-	end := time.Now().Add(watchdog)
+	end := time.Now().Add(watchdog) // before the timer is armed: the wake-up must find the end passed
+	wd := time.AfterFunc(watchdog+time.Millisecond, func() { mu.Lock(); cond.Broadcast(); mu.Unlock() })
 	// a server that stops serving on its own (ActivateAndServe returns) is not waited for
 	exited, watching := false, make(chan struct{})
 	var exitErr error
@@ -1048,6 +1071,10 @@ func judge(c admitCase, exp []expect, out outcome) error {
 	o := out.obs
 	if len(o.panics) > 0 {
 		return pbt.Errf("a method of the server's ResponseWriter panicked (%d times): %s", len(o.panics), o.panics[0])
+	}
+	if len(o.changed) > 0 {
+		return pbt.Errf("the octets handed to MsgInvalidFunc changed while the callback was looking at them (%d of %d reports; the receive buffer was recycled before the callback returned): %s",
+			len(o.changed), len(o.invalid), o.changed[0])
 	}
 
 	// MsgInvalidFunc: exactly the packets that are too short or accepted-but-undecodable, with their octets
